@@ -25,24 +25,34 @@ class UnpicklableError(LeafError):
 
 
 # branch = (x, fail, caught, mode); mode: 0 plain, 1 leaf without caching (cache_scope NONE), 2 shared mid job (the same
-# non-leaf call from several branches), 3 leaf that demands the whole limit ("hog"), 4 failing with an unpicklable error
+# non-leaf call from several branches), 3 leaf that demands the whole limit ("hog"), 4 failing with an unpicklable error,
+# 5 the same non-leaf call reached through a separate wrapper job per branch
 @task(name="leaf", namespace=NS, version="1")
 def leaf(salt, x, fail=False):
     if fail == 2:
         raise UnpicklableError("leaf %s failed" % (x,))
     if fail:
         raise LeafError("leaf %s failed" % (x,))
-    return ("leaf", x)
+    return _result(x)
+
+
+FLAGS = {"atomic_results": False}
+
+
+def _result(x):
+    # normally a small container; with atomic_results an int (pickle never memoises ints, so sharing one result object
+    # between deduplicated calls cannot change the pickle of a value that contains it several times)
+    return 1000 + x if FLAGS["atomic_results"] else ("leaf", x)
 
 
 @task(name="leaf_nocache", namespace=NS, version="1", cache_scope="NONE")
 def leaf_nocache(salt, x, fail=False):
-    return ("leaf", x)
+    return _result(x)
 
 
 @task(name="leaf_hog", namespace=NS, version="1")
 def leaf_hog(salt, x, fail=False):
-    return ("leaf", x)
+    return _result(x)
 
 
 @task(name="mid", namespace=NS, version="1")
@@ -59,8 +69,18 @@ def recover(error):
     return ("recovered", str(error))
 
 
+@task(name="outer", namespace=NS, version="1")
+def outer(salt, i, x, fail=False):
+    # a distinct call per branch that returns the *same* non-leaf call mid(salt, 0, x): duplicates of a non-leaf job
+    # reached through different expressions / parents
+    return mid(salt, 0, x, fail, 0)
+
+
 def _branch(salt, i, x, fail, caught, mode):
-    e = mid(salt, 0 if mode == 2 else i, x, fail, mode)
+    if mode == 5:
+        e = outer(salt, i, x, fail)
+    else:
+        e = mid(salt, 0 if mode == 2 else i, x, fail, mode)
     if caught:
         e = catch(e, LeafError, recover)
     return e
@@ -141,7 +161,7 @@ def expected(spec, with_bad=False):
 
 
 def run_case(spec, pick, limits, leaf_limits, mid_limits=None, early=False, symbolic=False, with_bad=False, salt=None,
-             resources=("r",), backend="shared", fifo_tasks=("mid", "main", "main_bad", "main_all", "recover", "recover_all"), hog_limits=None,
+             resources=("r",), backend="shared", fifo_tasks=("mid", "outer", "main", "main_bad", "main_all", "recover", "recover_all"), hog_limits=None,
              run_kwargs=None, lab=None):
     """One lab run of the template.  Returns (lab, outcome, salt)."""
     set_limits(leaf_limits, mid_limits, hog_limits)
@@ -150,7 +170,7 @@ def run_case(spec, pick, limits, leaf_limits, mid_limits=None, early=False, symb
         prog = {0: main, 1: main_bad, 2: main_all}[int(with_bad)]
         return lab, lab.run(prog(salt, list(spec)), **(run_kwargs or {})), salt
     lab = Lab(pick, limits=limits, early=early, backend=(shared_backend() if backend == "shared" else backend),
-              symbolic=symbolic, resources=resources, fifo_tasks=() if early == 1 else (("main", "main_bad", "main_all", "recover", "recover_all") if early == 2 else fifo_tasks))
+              symbolic=symbolic, resources=resources, fifo_tasks=() if (early == 1 or not fifo_tasks) else (("main", "main_bad", "main_all", "recover", "recover_all") if early == 2 else fifo_tasks))
     salt = salt or new_salt()
     prog = {0: main, 1: main_bad, 2: main_all}[int(with_bad)]
     outcome = lab.run(prog(salt, list(spec)), **(run_kwargs or {}))
